@@ -20,7 +20,7 @@ def scenarios(ctx):
     Q = [{"r": 1}, {"f": 1}, {"k": 1}, {"p": 1}]
     # thorough: pairs of deviations (each pair ~2*10^5 group executions per scenario); mid-cascade injections (p) are already
     # several thousand per run, so they are paired only with nothing
-    T = [{"r": 1, "f": 1}, {"k": 1, "r": 1}, {"r": 2}, {"p": 1}, {"k": 1}]
+    T = Q + [{"r": 1, "f": 1}, {"k": 1, "r": 1}, {"r": 2}]
     B = Q if quick else Q + [{"r": 2}]
     e = gc.errs(membership=False)
     tail = dict(h_conv=5.5, stable=0.5)
